@@ -49,6 +49,7 @@ func runC18(c *kit.Ctx) {
 
 	// ---- R1 ---------------------------------------------------------------
 	c.StartRule("R1", "counter and read deadline share one lock and two helpers", 8)
+	writeDeadlineOnlyInDial(c)
 	counterAndDeadlineUnderOneLock(c, le)
 	for _, fn := range p.Funcs {
 		for _, call := range kit.Calls(fn, "(net.Conn).SetDeadline") {
